@@ -1137,7 +1137,8 @@ def _obviously_different(a: HplExpression, b: HplExpression) -> bool:
         return True
     if isinstance(a, HplBinaryOperator):
         op: BinaryOperatorDefinition = a.operator
-        assert not isinstance(a.operand1, HplLiteral)  # due to simplification
+        # the first operand can be a literal if the operator is
+        # not commutative, e.g., `1 - x` or `2 / x`
         if op.is_plus or op.is_minus:
             if a.operand1 == b and isinstance(a.operand2, HplLiteral):
                 assert a.operand2.value != 0  # due to simplification
